@@ -227,8 +227,63 @@ def _reuse(case):
                     break
             k = "reuse:%s:%s" % (cmd, "in-range" if F is not None else "OUT")
             outcomes[k] = outcomes.get(k, 0) + 1
+            # ... and be WRITTEN (CSV and NetCDF writers), alone and next to a second field whose missing cells differ (every single
+            # missing cell, none, all; thorough: every subset), in both orders: the written result must still lie in [-1, +1]
+            rw = _written(cmd, src, params, tier, viols)
+            evals += rw[0]
+            judged += rw[0]
+            for k, v in rw[1].items():
+                outcomes[k] = outcomes.get(k, 0) + v
     return {"evals": max(evals, 1), "nontrivial": judged, "judged": judged, "viols": viols[:20], "outcomes": outcomes,
             "sample": {"producer": cmd, "consumers": len(consumers)}}
+
+
+_W = {}
+
+
+def _written(cmd, src, params, tier, viols):
+    import importlib
+    import os
+    from .. import snapshot
+    from . import c18
+
+    if "dir" not in _W:
+        _W["dir"] = snapshot.scratch_dir("c04w_")
+        c18._make_template(os.path.join(_W["dir"], "tpl.nc"), (2, 3), {"t": ("f8", [0.0] * 6, None, None)})
+        _W["nc"] = importlib.import_module("mpilot.libraries.eems.netcdf.io").EEMSWrite
+        _W["csv"] = importlib.import_module("mpilot.libraries.eems.csv.io").EEMSWrite
+    wd = _W["dir"]
+    n = 0
+    outcomes = {}
+    placements = list(range(64)) if tier == "thorough" else [0] + [1 << i for i in range(6)] + [63]
+    for writer, shape in (("csv", (6,)), ("nc", (2, 3))):
+        for m in placements:
+            for order in ((0, 1), (1, 0), (0,)):
+                if order == (0,) and m:
+                    continue
+                r = D.execute(cmd, [numpy.ma.MaskedArray(a).reshape(shape) for a in src], params)
+                if r[0] != "ok" or not isinstance(r[1], numpy.ndarray):
+                    return n, outcomes
+                F = r[1]
+                G = numpy.ma.MaskedArray(numpy.array([0.5, -0.5, 1.0, -1.0, 0.25, 0.0]).reshape(shape), mask=numpy.array([bool(m >> i & 1) for i in range(6)]).reshape(shape))
+                fields = [D.producer("res", F, True), D.producer("oth", G, True)]
+                kw = {"OutFileName": os.path.join(wd, "w.csv" if writer == "csv" else "w.nc"), "OutFieldNames": [fields[i] for i in order]}
+                if writer == "nc":
+                    kw.update(DimensionFileName=os.path.join(wd, "tpl.nc"), DimensionFieldName="t")
+                try:
+                    with numpy.errstate(all="ignore"):
+                        _W[writer]("w").execute(**kw)
+                except Exception as exc:
+                    outcomes["written:%s:raised:%s" % (writer, type(exc).__name__)] = outcomes.get("written:%s:raised:%s" % (writer, type(exc).__name__), 0) + 1
+                    continue
+                n += 1
+                tag = {"producer": cmd, "producer_params": params, "writer": writer, "fields": ["res" if i == 0 else "oth" for i in order],
+                       "other_missing": [bool(m >> i & 1) for i in range(6)], "params": params}
+                if not _check_range(cmd, ("ok", F), viols, tag):
+                    viols[-1]["key"] += ":after-written-by:" + writer
+                    return n, outcomes
+                outcomes["written:%s:in-range" % writer] = outcomes.get("written:%s:in-range" % writer, 0) + 1
+    return n, outcomes
 
 
 def run(case):
